@@ -122,7 +122,11 @@ func (vm *vm) run() error {
 			vm.prog.disasmInstr(vm.pc)
 		}
 
-		switch instr := readOp(); instr {
+		instr := readOp()
+		if vm.tos == stackSize && pushes(instr) {
+			return vm.runtimeError("stack overflow")
+		}
+		switch instr {
 
 		case opCONST:
 			// ( -- x )
@@ -354,6 +358,15 @@ func (vm *vm) run() error {
 			// ( -- )
 		}
 	}
+}
+
+// pushes tells whether the instruction grows the stack.
+func pushes(o opcode) bool {
+	switch o {
+	case opCONST, opZERO, opONE, opTRUE, opFALSE, opNIL, opGETLOCAL, opGETFIELD:
+		return true
+	}
+	return false
 }
 
 func (vm *vm) runtimeError(format string, a ...any) error {
